@@ -83,7 +83,7 @@ class C11(Check):
                 p = Lark(g['grammar'], **g['options'])
                 e = W.Entry('gen', g['grammar'], g['options'], samples=g['samples'])
                 sg = W.SentenceGen(p, e)
-                spec = {'name': 'gen%d' % i, 'grammar': g['grammar'], 'options': g['options'], 'user': {}, 'input_kind': 'str'}
+                spec = {'name': 'gen%d' % i, 'grammar': g['grammar'], 'options': g['options'], 'user': {}, 'input_kind': 'bytes' if g['options'].get('use_bytes') else 'str'}
                 spec['probes'] = self._probes(rng, p, e, lambda st: sg.text(rng, st))
             else:
                 cfg = rng.choice(self.cfgs)
@@ -123,7 +123,7 @@ class C11(Check):
             return tr['t']
         def cli_ok(case):
             o = case['options']
-            return plan.get('cli') and not case.get('user') and 'g_regex_flags' not in o and not o.get('strict') and case.get('input_kind', 'str') == 'str'
+            return plan.get('cli') and not case.get('user') and 'g_regex_flags' not in o and not o.get('strict')
         cli = {c['name']: bool(cli_ok(c)) for c in plan['cases']}
         tB = run('B', [{'do': 'build', 'cfg': c, 'standalone': plan['standalone'], 'cli': cli[c], 'compress_cli': plan.get('cli') == 'compress', 'warm': plan.get('warm', False)} for c in cfgs])
         if tB is None:
